@@ -97,6 +97,11 @@ def extract_calls(cls, rep):
       continue
     if isinstance(st, ast.Pass):
       continue
+    if isinstance(st, ast.Assign) and len(st.targets) == 1 and isinstance(st.targets[0], ast.Attribute) \
+        and isinstance(st.targets[0].value, ast.Name) and st.targets[0].value.id == selfn and st.targets[0].attr not in cls.field_order:
+      # bookkeeping in a non-field attribute: does not take part in the validation (its uses are judged where they occur)
+      rep.note('__post_init__ also stores the non-field attribute %s' % st.targets[0].attr)
+      continue
     if not (isinstance(st, ast.Expr) and isinstance(st.value, ast.Call) and isinstance(st.value.func, ast.Attribute)
             and isinstance(st.value.func.value, ast.Name) and st.value.func.value.id == selfn):
       raise Undecided('__post_init__ statement not understood: %s' % norm(st)[:80])
